@@ -108,4 +108,16 @@ theorem gen_validateVSI_eq (s : String) : Generated.validateVSI s = Model.valida
     | nil => exact absurd hb this
     | cons a as => simp [h]
 
+/-- the nine IANA hash-function names PSA admits -/
+def hashAlgNames : List String := ["md2", "md5", "sha-1", "sha-224", "sha-256", "sha-384", "sha-512", "shake128", "shake256"]
+
+/-- `ValidateHashAlgID` (regenerated code): accepts exactly the nine names, every refusal is of the wrong-syntax class -/
+theorem gen_validateHashAlgID_spec (v : String) :
+    Generated.validateHashAlgID v = (if v ∈ hashAlgNames then .ok () else .err eWrongSyntax) := by
+  unfold Generated.validateHashAlgID hashAlgNames
+  by_cases h0 : v = ""
+  · subst h0; decide
+  · simp only [beq_iff_eq, h0, if_false, Bool.or_eq_true, List.mem_cons, List.mem_nil_iff, or_false, or_assoc]
+    rfl
+
 end Psa.Tie
